@@ -167,3 +167,66 @@ match_link_orders = FunctionContract(
             ("yield {v: k for k, v in raw_match.items()}", "pass")],
 )
 CONTRACTS.append(match_link_orders)
+
+
+# ------------------------------------------------------------------ _is_valid_non_edges: the absent bonds of a link
+NEAttr = TKey('NEAttr')
+NonEdge = TTuple(LIdx, NEAttr)
+
+
+def setup_ne(cx):
+    from pyvc.builtins import contains
+    ne = cx.val('non_edges', TSeq(NonEdge))
+    cx.spec_env['non_edges'] = ne
+    in_link = cx.uf('in_link', [LIdx], TBool)                  # from_node in link
+    mol_of = cx.uf('mol_of', [LIdx], MIdx)                     # rev_raw_match[from_node]
+    resid_of = cx.uf('resid_of', [MIdx], TInt)
+    ne_order = cx.uf('ne_order', [NEAttr], TInt)               # to_node_attrs.get('order', 0)
+    nbrs = cx.uf('nbrs', [MIdx], TSeq(MIdx))                   # molecule.neighbors(atom)
+    am = cx.uf('atoms_match', [MIdx, NEAttr], TBool)           # _atoms_match(molecule atom, template)
+    cx.uf('l_order', [LIdx], TInt)                             # the order of a link atom (0 = the reference residue)
+    m_ = z3.Const('m', MIdx.sort())
+    cx.assume(z3.ForAll([m_], TSeq(MIdx).len(nbrs(m_)) >= 0))
+    link = Obj('Link', non_edges=ne)
+    link.attrs['__contains__'] = Builtin(lambda e, l: wrap(TBool, in_link(to_z3(l, LIdx))), 'in link')
+    rev = Obj('rev_raw_match', __getitem__=Builtin(lambda e, l: SV(MIdx, mol_of(to_z3(l, LIdx))), 'rev_raw_match[]'))
+    mnodes = Obj('NodeView', __getitem__=Builtin(
+        lambda e, m: Obj('atom', key=m, __getitem__=Builtin(lambda e2, k: SV(TInt, resid_of(to_z3(m, MIdx))) if k == 'resid' else
+                                                           (_ for _ in ()).throw(EngineError('atom[%r]' % (k,))), 'atom[]')), 'molecule.nodes[]'))
+    molecule = Obj('Molecule', nodes=mnodes, neighbors=Builtin(lambda e, m: SV(TSeq(MIdx), nbrs(to_z3(m, MIdx))), 'molecule.neighbors'))
+    cx.spec_env['_atoms_match'] = Builtin(lambda e, atom, tmpl: wrap(TBool, am(to_z3(atom.attrs['key'], MIdx), to_z3(tmpl, NEAttr))), '_atoms_match')
+    eng = cx.eng
+    eng.methods[('NEAttr', 'get')] = lambda e, a, k, d=None: SV(TInt, ne_order(to_z3(a, NEAttr))) if (k == 'order' and d == 0) else \
+        (_ for _ in ()).throw(EngineError('non-edge template .get(%r)' % (k,)))
+    return dict(molecule=molecule, link=link, rev_raw_match=rev)
+
+
+SPEC_NE = {
+    'anchor': "lambda q: mol_of(non_edges[q][0])",
+    # the j-th neighbour of the q-th non-edge's anchor is an atom that the non-edge forbids: it matches the template and
+    # lies in the residue the template's order points to (counted from the anchor's residue)
+    'forbidden': "lambda q, j: in_link(non_edges[q][0]) and 0 <= j and j < len(nbrs(anchor(q))) and "
+                 "resid_of(nbrs(anchor(q))[j]) == resid_of(anchor(q)) - l_order(non_edges[q][0]) + ne_order(non_edges[q][1]) and "
+                 "atoms_match(nbrs(anchor(q))[j], non_edges[q][1])",
+}
+valid_non_edges = FunctionContract(
+    F, '_is_valid_non_edges', 'C05', short='_is_valid_non_edges[anchors on the reference residue]', setup=setup_ne, spec_defs=SPEC_NE,
+    spec_env=dict(MIdx=MIdx, LIdx=LIdx, NEAttr=NEAttr),
+    # the case in which the code's reading and the documented one agree: the anchor of every non-edge has order 0 (every
+    # shipped link is written that way; the other case is the recorded known finding of C05, decided by the bounded layer)
+    requires=["forall(lambda q: implies(0 <= q and q < len(non_edges), l_order(non_edges[q][0]) == 0))"],
+    ghost_at={'entry': "g_q = -1\ng_j = -1", 'before:stmt:return False': "g_q = _iL1\ng_j = _i"},
+    locals=dict(g_q=TInt, g_j=TInt),
+    ensures=[
+        # the placement is valid exactly when no anchor has a bonded neighbour that a non-edge forbids
+        "implies(result, forall(lambda q, j: implies(0 <= q and q < len(non_edges), not forbidden(q, j))))",
+        "implies(not result, 0 <= g_q and g_q < len(non_edges) and forbidden(g_q, g_j))",
+    ],
+    loops={'L1': LoopSpec(inv=["forall(lambda q, j: implies(0 <= q and q < _i, not forbidden(q, j)))"]),
+           'L1.1': LoopSpec(inv=["forall(lambda q, j: implies(0 <= q and q < _iL1, not forbidden(q, j)))",
+                                 "forall(lambda j: implies(0 <= j and j < _i, not forbidden(_iL1, j)))",
+                                 "in_link(non_edges[_iL1][0]) and from_mol_node_name == anchor(_iL1) and from_resid == resid_of(anchor(_iL1))"])},
+    canary=[("if to_resid == from_resid + to_order and _atoms_match(to_mol, to_link):", "if to_resid == from_resid and _atoms_match(to_mol, to_link):"),
+            ("if from_node not in link:\n            continue", "if from_node not in link:\n            return False")],
+)
+CONTRACTS.append(valid_non_edges)
